@@ -22,8 +22,13 @@
    check replays it on the real binary (known finding of C19/C20).                                     *)
 EXTENDS CliFsSem
 
-CONSTANTS NWorkers, MaxChunks, SetupIds, FaultTasks
+CONSTANTS NWorkers, MaxChunks, SetupIds, FaultTasks, Protocol
           \* FaultTasks: how many of the first tasks may suffer faults (0 = fault-free model)
+          \* Protocol: "fixed" = the code since bdbfbd6/282e2ab (refuse when <src>.bak exists; the renamed source is
+          \*           remembered by index), "old" = before (rename over an existing <src>.bak; backup recognised by the
+          \*           spelling dst+".bak").  The "old" configurations are vacuity guards: they MUST violate.
+          \*           "fixed2" = "fixed" + proposed patch fixes/C20-2: a task whose backup name belongs to another task of
+          \*           the run is not started at all (decided before any worker runs).
 
 A    == <<97>>                         \* "a"
 Bf   == <<98>>                         \* "b"
@@ -91,12 +96,19 @@ Init ==
 Upd(x, r) == wk' = [wk EXCEPT ![x] = r]
 Same(x) == UNCHANGED <<setup, nch, faults, crashed>>
 
+\* (fixed2) decided from the task list before any worker starts: the backup name of a file minified onto itself is a
+\* source or destination of another task
+SkippedUpFront(t) ==
+  LET g == InitFs(setup.files) IN
+  \E i \in 1..Len(Tasks[t].srcs) :
+     /\ InodeAt(g, Tasks[t].srcs[i]) # 0 /\ InodeAt(g, Tasks[t].srcs[i]) = InodeAt(g, Tasks[t].dst)
+     /\ \E u \in 1..Len(Tasks) : u # t /\ Bak(Tasks[t].srcs[i]) \in ({Tasks[u].srcs[j] : j \in 1..Len(Tasks[u].srcs)} \cup {Tasks[u].dst})
 \* take the next task; a sync task whose source IS its destination (same spelling) needs no action
 Take(x) ==
   /\ wk[x].pc = "idle" /\ queue # <<>>
   /\ LET t == Head(queue) tk == Tasks[t] IN
        /\ queue' = Tail(queue)
-       /\ Upd(x, IF tk.sync /\ tk.srcs[1] = tk.dst THEN Idle
+       /\ Upd(x, IF (tk.sync /\ tk.srcs[1] = tk.dst) \/ (Protocol = "fixed2" /\ SkippedUpFront(t)) THEN Idle
                  ELSE [Idle EXCEPT !.pc = "same", !.t = t, !.srcs = tk.srcs])
   /\ UNCHANGED fs /\ Same(x)
 
@@ -112,7 +124,9 @@ SameFileStep(x) ==
 RenameToBak(x) ==
   /\ wk[x].pc = "rename"
   /\ LET w == wk[x] dst == Tasks[w.t].dst b == Bak(w.srcs[w.bak]) IN
-       IF CanRename(fs, dst, b)
+       IF Protocol \in {"fixed", "fixed2"} /\ NodeAt(fs, Real(fs, b, FALSE)).k # "none"
+       THEN /\ UNCHANGED fs /\ Upd(x, Idle)                         \* os.Lstat(b) succeeds: "backup file already exists", return false
+       ELSE IF CanRename(fs, dst, b)
        THEN /\ fs' = DoRename(fs, dst, b)
             /\ Upd(x, [w EXCEPT !.pc = "openin", !.srcs[w.bak] = b])
        ELSE /\ UNCHANGED fs /\ Upd(x, Idle)                         \* Error, return false
@@ -181,7 +195,7 @@ CloseOut(x) ==
   /\ wk[x].pc = "closeout"
   /\ fs' = DoClose(fs, FdOut(x))
   /\ LET w == wk[x] dst == Tasks[w.t].dst
-         mine == w.bak # 0 /\ w.srcs[w.bak] = Bak(dst)
+         mine == w.bak # 0 /\ (Protocol \in {"fixed", "fixed2"} \/ w.srcs[w.bak] = Bak(dst))
      IN Upd(x, [w EXCEPT !.pc = IF Tasks[w.t].sync \/ ~mine THEN "attrs" ELSE IF w.err THEN "unlinkdst" ELSE "unlinkbak"])
   /\ UNCHANGED queue /\ Same(x)
 
@@ -281,17 +295,30 @@ BakRemovedOnlyAfterComplete ==
             => (ContentAt(fs, p) = Some(Complete(ti[1])) \/ ContentAt(fs', p) = o)]_vars
 
 AllDone == ~crashed /\ queue = <<>> /\ \A x \in Workers : wk[x].pc = "idle"
-\* after an undisturbed run a file minified onto itself (same spelling) holds the new content, without backup;
-\* after a failed write the original is back, without backup
+\* one task's backup name is another task's file: the tasks interfere (setup "bakinput")
+Interfering == \E t, u \in 1..Len(Tasks) : t # u /\ \E i \in 1..Len(Tasks[t].srcs) :
+                  RealPath(f0, Bak(Tasks[t].srcs[i]), FALSE) \in ({RealPath(f0, Tasks[u].srcs[j], FALSE) : j \in 1..Len(Tasks[u].srcs)} \cup {RealPath(f0, Tasks[u].dst, FALSE)})
+\* a file minified onto itself whose backup name is taken from the start is refused (fixed protocol)
+RefusedAtStart(t) == \E ti \in OntoItself : ti[1] = t /\ ti[2] = FirstOnto(t) /\ ~Tasks[t].sync
+                                              /\ NodeAt(f0, Real(f0, Bak(Tasks[t].srcs[ti[2]]), FALSE)).k # "none"
+\* after an undisturbed run a file minified onto itself holds the new content (the original after a failed write or
+\* when it was refused), and the backup is gone - also when the destination names the source through a link
 DoneClean ==
   AllDone => \A ti \in OntoItself :
     LET t == ti[1] p == Tasks[t].srcs[ti[2]] IN
-      (p = Tasks[t].dst /\ ti[2] = FirstOnto(t) /\ ~Tasks[t].sync /\ ~faults[t].open /\ Bak(p) \notin Leaves(f0)) =>
-         /\ ~Exists(fs, Bak(p))
-         /\ ContentAt(fs, p) = IF faults[t].wr # 0 THEN ContentAt(f0, p) ELSE Some(Complete(t))
-\* every destination of an undisturbed, fault-free task is complete
+      (ti[2] = FirstOnto(t) /\ ~Tasks[t].sync /\ ~faults[t].open /\ ~Interfering) =>
+         IF RefusedAtStart(t) THEN ContentAt(fs, p) = ContentAt(f0, p) /\ ContentAt(fs, Bak(p)) = ContentAt(f0, Bak(p))
+         ELSE /\ ~Exists(fs, Bak(p))
+              /\ ContentAt(fs, Tasks[t].dst) = IF faults[t].wr # 0 THEN ContentAt(f0, Tasks[t].dst) ELSE Some(Complete(t))
+\* no backup is left behind by an undisturbed run (nothing named <x>.bak that was not there before)
+NoLeftoverBackup ==
+  (AllDone /\ \A t \in 1..Len(Tasks) : ~faults[t].open /\ ~Tasks[t].sync) =>
+     \A t \in 1..Len(Tasks) : \A i \in 1..Len(Tasks[t].srcs) :
+        LET b == RealPath(f0, Bak(Tasks[t].srcs[i]), FALSE) IN (b \in Leaves(fs)) => (b \in Leaves(f0))
+\* every destination of an undisturbed, fault-free task that is not refused is complete
 DestinationsComplete ==
   AllDone => \A t \in 1..Len(Tasks) :
-    (faults[t] = NoFault \/ faults[t] = [NoFault EXCEPT !.min = TRUE]) => ContentAt(fs, Tasks[t].dst) = Some(Complete(t))
+    ((faults[t] = NoFault \/ faults[t] = [NoFault EXCEPT !.min = TRUE]) /\ ~RefusedAtStart(t) /\ ~Interfering)
+       => ContentAt(fs, Tasks[t].dst) = Some(Complete(t))
 NoDescriptorLeak == AllDone => fs.fds = <<>>
 =============================================================================
